@@ -51,13 +51,18 @@ def gen_cases(tier, seed):
                 js = list(range(na)) if (fam == "thermo" or tier != "quick") else [j for j in range(na) if (i + j) % 3 == 0 or abs(i - j) < 6]
                 yield {"kind": "pairs", "family": fam, "i": i, "js": js, "source": src, "seed": r.randrange(1 << 30), "cold": k % 2 == 1}
     for i in range(n):
-        yield {"kind": "history", "seed": r.randrange(1 << 30), "source": ["synthetic", "synthetic", "n77", "model", "co2", "modelpa", "origin", "shortdes"][i % 8], "length": r.randint(2, 10), "heavy": i % 8 == 0}
+        yield {"kind": "history", "seed": r.randrange(1 << 30), "source": ["synthetic", "synthetic", "n77", "model", "co2", "modelpa", "origin", "shortdes", "dubinin"][i % 9], "length": r.randint(2, 10), "heavy": i % 9 == 0}
+    for i in range(3 if tier == "quick" else 60):
+        yield {"kind": "discarded", "seed": r.randrange(1 << 30)}
 
 
 def run_case(case, ctx):
     if case["kind"] == "pairs":
         ctx.count("case_kinds", "pairs/" + case["family"])
         return _run_pairs(case, ctx)
+    if case["kind"] == "discarded":
+        ctx.count("case_kinds", "discarded")
+        return _run_discarded(case, ctx)
     ctx.count("case_kinds", case["source"])
     _run_history(case, ctx)
 
@@ -206,6 +211,18 @@ def _model(seed):
     return pygaps.ModelIsotherm(model=m, material="verif-c04-m", adsorbate="nitrogen", temperature=298.0, **gen.DEFAULT_UNITS)
 
 
+def _dubinin(seed):
+    """A Dubinin-Radushkevich / -Astakhov model isotherm: the one model family whose equation contains the temperature."""
+    import pygaps
+    from pgverif import models as GM
+    name = ["DR", "DA"][seed % 2]
+    T = [77.355, 87.3, 120.0][seed % 3]
+    P = {"DR": {"n_m": 9.5 + (seed % 5) * 0.25, "e": 6500.0 + (seed % 7) * 210.0}, "DA": {"n_m": 7.25, "e": 5200.0 + (seed % 7) * 190.0, "m": 2.4}}[name]
+    m = GM.make_model(name, P, pressure_range=(1e-5, 0.9), loading_range=(0.01, 9.0), rmse=0.01, temperature=T)
+    units = dict(gen.DEFAULT_UNITS, pressure_mode="relative", pressure_unit=None)
+    return pygaps.ModelIsotherm(model=m, material="verif-c04-du", adsorbate="nitrogen" if T < 100 else "methane", temperature=T, **units)
+
+
 _BAD_KERNEL = []
 
 
@@ -259,7 +276,7 @@ def fresh_environment(*isos):
 
 
 def make_object(source, seed):
-    return {"synthetic": lambda: _synthetic(seed, seed), "n77": lambda: _n77(seed), "model": lambda: _model(seed), "co2": lambda: _co2(seed), "modelpa": lambda: _model_pa(seed), "origin": lambda: _origin(seed), "shortdes": lambda: _shortdes(seed)}[source]()
+    return {"synthetic": lambda: _synthetic(seed, seed), "n77": lambda: _n77(seed), "model": lambda: _model(seed), "co2": lambda: _co2(seed), "modelpa": lambda: _model_pa(seed), "origin": lambda: _origin(seed), "shortdes": lambda: _shortdes(seed), "dubinin": lambda: _dubinin(seed)}[source]()
 
 
 # ------------------------------------------------------------------ fingerprint
@@ -507,6 +524,8 @@ def make_query(r, source, heavy, seed):
         pool += ["whittaker", "whittaker", "model_iso", "iast", "iast", "henry", "isosteric", "isosteric"]
     if source == "model":
         pool = ["loading_at", "pressure_at", "spreading", "export", "iast", "adsorbate"]
+    if source == "dubinin":
+        pool = ["loading_at", "loading_at", "pressure_at", "spreading", "export", "accessors"]
     if source == "shortdes":
         pool = ["model_iso", "model_iso", "model_iso", "accessors", "loading_at", "export"]
     if source == "origin":
@@ -629,6 +648,16 @@ def _run_history(case, ctx):
             args = [obj, other]
         else:
             args = [obj] + ([partner] if is_iast else [])
+        if r.random() < 0.3:
+            # another isotherm of the same kind (another sample, another temperature) is created and looked at in between: what an
+            # existing isotherm answers does not depend on which objects were made after it
+            try:
+                bystander = make_object(source, seed + 14)  # (same model family, another temperature / other parameters)
+                _outcome(lambda o: o.loading_at(float(numpy.median(o.pressure(branch="ads") if hasattr(o, "data_raw") else o.pressure()))), bystander)
+                trail.append("<another %s object created>" % source)
+                ctx.count("bystanders", source)
+            except Exception:
+                pass
         fps = [fingerprint(x) for x in args]
         state_before = explain(obj)
         err_before = numpy.geterr()
@@ -693,6 +722,47 @@ def _run_history(case, ctx):
         prev = name
     if r.random() < 0.03:
         ctx.sample({"source": source, "history": trail})
+
+
+def _run_discarded(case, ctx):
+    """Mixture calculations on isotherms that take the place (the memory) of isotherms discarded earlier: same partial pressures,
+    same starting guess, other data. What was computed for objects that no longer exist says nothing about new ones."""
+    import gc
+    import pygaps
+    from pygaps.iast import pgiast
+    from pgverif import models as GM
+    r = gen.rng(case["seed"], "disc")
+
+    def pair(params):
+        out = []
+        for (nm, K), ads in zip(params, ("methane", "carbon dioxide")):
+            m = GM.make_model("Langmuir", {"n_m": nm, "K": K}, pressure_range=(0.0, 100.0), loading_range=(0.0, 50.0))
+            out.append(pygaps.ModelIsotherm(model=m, material="verif-c04-disc", adsorbate=ads, temperature=298.0, **gen.DEFAULT_UNITS))
+        return out
+
+    pp = numpy.array([round(r.uniform(0.2, 2.0), 3), round(r.uniform(0.2, 2.0), 3)])
+    guess = [0.5, 0.5]
+    pB = [(round(r.uniform(2, 6), 3), round(r.uniform(0.2, 3), 3)), (round(r.uniform(2, 6), 3), round(r.uniform(0.2, 3), 3))]
+    keep = pair(pB)  # (kept alive: nothing can take its place)
+    ref = _outcome(lambda: pgiast.iast_point(keep, pp, adsorbed_mole_fraction_guess=guess, warningoff=True))
+    for rnd in range(25):
+        pA = [(round(r.uniform(2, 6), 3), round(r.uniform(0.2, 3), 3)), (round(r.uniform(2, 6), 3), round(r.uniform(0.2, 3), 3))]
+        tmp = pair(pA)
+        _outcome(lambda: pgiast.iast_point(tmp, pp, adsorbed_mole_fraction_guess=guess, warningoff=True))
+        del tmp
+        gc.collect()
+        new = pair(pB)
+        got = _outcome(lambda: pgiast.iast_point(new, pp, adsorbed_mole_fraction_guess=guess, warningoff=True))
+        ctx.case(["discarded", case["seed"], rnd])
+        ctx.count("queries", "iast_point(after-discarded-isotherms)")
+        if got[0] != ref[0] or (got[0] == "exc" and type(got[1]) is not type(ref[1])):
+            ctx.violation("iast_point/outcome-depends-on-history", "the kind of outcome differs for equal isotherms created after other isotherms were discarded", got=[got[0], repr(got[1])[:160]],
+                          reference=[ref[0], repr(ref[1])[:160]], round=rnd)
+            return
+        if got[0] == "ok" and not same_value(got[1], ref[1]):
+            ctx.violation("iast_point/value-depends-on-history", "equal isotherms created after other isotherms were discarded give another mixture result", got=repr(got[1])[:200], reference=repr(ref[1])[:200], round=rnd)
+            return
+        del new
 
 
 def finalize(ctx):
